@@ -60,5 +60,27 @@ def canon_session_line(line):
     closing = {s for s, t in items if t == "closed"}
     # whether the cancellation of a closing session's own pending acquire still reaches its socket is a race
     items = [(s, t) for s, t in items if not (s in closing and t.startswith("err:") and t.endswith(":22"))]
-    items = sorted(items, key=lambda st: (st[0], _tid(st[1])))
-    return " ".join(f"{s}:{t}" for s, t in items)
+    # the events one pattern delete / import causes for different keys leave the server in hash order: within a
+    # transaction they are grouped by key (the order per key is kept: the sort is stable)
+    def kname(tok):
+        if not tok.startswith("j"): return ""
+        try:
+            m = decode_msg(tok)
+            p = m.get("pState") if isinstance(m, dict) else None
+            if p: return ",".join(sorted(kv["key"] for kv in (p.get("keyValuePairs") or p.get("deleted") or [])))
+        except Exception:
+            pass
+        return ""
+    items = sorted(items, key=lambda st: (st[0], _tid(st[1]), kname(st[1])))
+    # a pattern delete that removes several children of one parent sends the parent's ls-subscriber one list per removal, in the
+    # hash order of the children: the intermediate lists are not determined, the last one is (C05): only that one is compared
+    def is_ls(tok):
+        if not tok.startswith("j"): return False
+        try: return "lsState" in decode_msg(tok)
+        except Exception: return False
+    kept = []
+    for i, (s_, t_) in enumerate(items):
+        if is_ls(t_) and i + 1 < len(items) and items[i + 1][0] == s_ and is_ls(items[i + 1][1]) and _tid(items[i + 1][1]) == _tid(t_):
+            continue
+        kept.append((s_, t_))
+    return " ".join(f"{s}:{t}" for s, t in kept)
